@@ -113,6 +113,9 @@ def enum_cases(tier):
                 firsts += [["move", i, t, None] for i in range(n) for t in range(-1, n)]
                 firsts += [["set_data", i, lab, None, True, False] for i in range(n) for lab in ("a", "b")]
                 for f in firsts:
+                    if f[0] == "move":
+                        # (registration order no longer follows the hierarchy; then everything goes at once)
+                        yield {"spec": spec, "spec2": [], "typed": False, "ops": [f, ["clear"]], "profile": "two-step"}
                     for k in range(n):
                         for kc in (False, True):
                             for wc in (False, True):
